@@ -25,6 +25,8 @@ func init() {
 			{ID: "C15.R5", Text: "GetVBucketSeqNos: the callback's error reaches the function's error result (same rule as C20.R3 on that wrapper)", Run: c15r5},
 			{ID: "C15.R7", Text: "defaults never rewrite a configured (possibly invalid) type: every default store is guarded by the zero-test of its own field (same rule as C17.R1)", Run: c17r1},
 			{ID: "C15.R8", Text: "a vBucket without a position is an error: openStream returns a non-nil error on every path on which the position lookup fails", Run: c15r8},
+			{ID: "C15.R9", Text: "an unreadable checkpoint is fatal, not 'no checkpoint': the file backend treats exactly os.ErrNotExist as absent and returns every other read or parse error; the Couchbase backend concludes absence only after the read and parse (same rule as C02.R7)", Run: c02r7},
+			{ID: "C15.R10", Text: "a transient end is always answered by the bounded reopen: reopen ⇔ ¬closeWithCancel ∧ err≠nil ∧ transient cause, under no further condition of the stream's state (same rule as C12.R1)", Run: c12r1},
 			{ID: "C15.R6", Text: "bounded reopen then fail-stop (same rule as C12.R3)", Run: c12r3},
 		},
 	})
